@@ -234,7 +234,8 @@ def run(ctx):
         ctx.log("model ConfigQueryGen/%s: %d cases, %s (%.1fs)" % (label, r.distinct, res, r.wall))
         got = dumped_cases(r.out)
         if r.violated:
-            complete = False
+            if label != "rnd":              # "rnd-cases" enumerates every rendering case regardless
+                complete = False
             st = violating_state(r)
             if not st or "case" not in st:
                 raise vlib.Inconclusive("cannot read the counterexample of ConfigQueryGen/%s" % label)
@@ -274,7 +275,8 @@ def run(ctx):
         behs += mine
     ctx.states += nsimstates
     ctx.model_runs.append({"module": "ConfigQueryEdit", "cfg": "simulate", "behaviours": len(behs), "states": nsimstates,
-                           "result": "ok"})
+                           "result": "ok" if not any(rs.violated for rs in simresults) else "violated",
+                           "wall_s": round(max(rs.wall for rs in simresults), 1)})
     ctx.log("generated %d cases (%d from exhaustive enumeration, %d behaviours simulated) in %.1fs"
             % (len(cases), nexh, len(behs), time.time() - t0))
     ctx.exhaustive = complete
